@@ -192,6 +192,7 @@ def check(ctx):
     ctx.attempt(common.parallel_shapes, [f for f in ctx.repo.funcs.values() if f.module.name.endswith(('trs.trs','tract.tract','plssdesc.plss_parse'))])
     ctx.attempt(common.error_check_covers_all, ctx.repo.func('PLSSParser.check_error_tracts'))
     ctx.attempt(_wording_flags_on_every_path)
+    ctx.attempt(_keyword_prefilters)
     from .c04 import scrubber_wildcards     # wording deleted by the preprocessor can raise no warning
     ctx.attempt(scrubber_wildcards, why="the wording that the wildcard deletes after a Twp/Rge (up to that many characters before a "
                                         "P.M. designation) is gone before the warning patterns see it: 'less and except', 'wellbore', "
@@ -528,3 +529,45 @@ def _wording_flags_on_every_path(ctx):
                              f"`self.gen_flags_chunk()` runs only under {[norm(t) for t, _ in guards(c)]}",
                   key=f"SINK|ChunkParser|gen_flags_chunk|{'early-return' if early else 'conditional'}",
                   where=common.loc(m, early[0] if early else c))
+
+
+def _keyword_prefilters(ctx):
+    """A table of keywords used to decide whether a warning pattern needs to
+    run at all (`if not any(k in lowered for k in KEYWORDS[flag]): continue`)
+    is sound only if every text the pattern can match contains one of its
+    keywords.  Members of each pattern's language are enumerated from the
+    pattern (lower-cased, as the chunk is) and looked for the keywords."""
+    from .. import rx as _rx
+    fi = ctx.repo.func('ChunkParser.gen_flags_chunk')
+    env = ctx.fold.func_env(fi)
+    table = env.get('rgx_and_how_to_handle')
+    # candidate keyword tables: {flag: (words, ...)} folded from the function or the module
+    kw_tables = {}
+    for nm, v in list(env.items()):
+        if isinstance(v, dict) and v and all(isinstance(k, str) for k in v) and all(
+                isinstance(x, (tuple, list)) and x and all(isinstance(w, str) for w in x) for x in v.values()):
+            kw_tables[nm] = v
+    used = [nm for nm in kw_tables if any(isinstance(x, ast.Name) and x.id == nm for x in ast.walk(fi.node))]
+    if not used:
+        ctx.ok('TBL', 'gen_flags_chunk runs every warning pattern (no keyword pre-test)')
+        return
+    if not isinstance(table, dict):
+        ctx.undecided('TBL', 'keyword pre-tests of the warning patterns are implied by the patterns', 'pattern table does not fold')
+        return
+    for nm in used:
+        kws = kw_tables[nm]
+        for rv, how in table.items():
+            flag = how[0] if isinstance(how, (tuple, list)) else how
+            if flag not in kws or not hasattr(rv, 'pattern'):
+                continue
+            try:
+                words = _rx.enumerate_words(_rx.parse(rv.pattern, rv.flags), rv.flags, rep_extra=1)
+            except AnalysisError as e:
+                ctx.undecided('TBL', f"keyword pre-test for {flag!r}", f"language not enumerated ({e})")
+                continue
+            lacking = [w for w in words if not any(k.lower() in w.lower() for k in kws[flag])]
+            ctx.check(not lacking, 'TBL', f"gen_flags_chunk: every text {rv.name} matches contains a keyword of {nm}[{flag!r}]",
+                      f"{len(words)} members enumerated",
+                      f"{rv.name} also matches {lacking[0]!r}, which contains none of {list(kws[flag])}: for such wording the pattern "
+                      f"is never run and the {flag!r} warning is not raised" if lacking else '',
+                      key=f"TBL|gen_flags_chunk|keyword-prefilter|{flag}", where=fi.loc)
